@@ -32,7 +32,10 @@ def one(patch):
 def main():
     pats = []
     for a in sys.argv[1:]:
-        pats += sorted(glob.glob(os.path.join(a, "r*_patch.diff"))) if os.path.isdir(a) else [a]
+        if os.path.isdir(a):
+            pats += sorted(glob.glob(os.path.join(a, "r*_patch.diff"))) + sorted(glob.glob(os.path.join(a, "*", "patch.diff"))) + sorted(glob.glob(os.path.join(a, "patch.diff")))
+        else:
+            pats.append(a)
     bad = 0
     with concurrent.futures.ThreadPoolExecutor(max_workers=3) as ex:
         for patch, out in ex.map(one, pats):
